@@ -144,6 +144,20 @@ def run(prog, run):
     r7(prog, run)
     r8(prog, run)
     r9(prog, run)
+    r10(prog, run)
+
+
+def r10(prog, run):
+    """the clause is C07.R7's; it is shared, not copied"""
+    from . import C07
+    rid = run.rule('C10.R10', 'a new session that is not a resumption is announced as such: the "resumed" member of the session-begin record is the one filled from the stream '
+                              'manager\'s resumed state (= C07.R7), so the requests retained from the lost session are cancelled', floor=1)
+    run.instance(rid)
+    problem, site = C07.session_begin_wiring(prog)
+    if problem:
+        run.violation(rid, 'SessionBegin#resumed-wiring', site, problem)
+    else:
+        run.ok(rid, site, 'session-begin record wired to the resumed state')
 
 
 def r7(prog, run):
